@@ -1,6 +1,7 @@
 package props
 
 import (
+	"bytes"
 	"crypto/ecdsa"
 	"crypto/elliptic"
 	"crypto/rsa"
@@ -481,11 +482,93 @@ func uvarintStrict(b []byte) (uint64, int, error) {
 
 var _ = hex.EncodeToString
 
+type c16CoercedCase struct {
+	Scalar int    `json:"scalar"` // private scalar k; the public key is k*G on secp256k1, typed as a libp2p ECDSA key
+	Why    string `json:"why"`
+}
+
+// coercedKeys lists ECDSA-typed secp256k1 public keys (what crypto.GenerateECDSAKeyPairWithCurve(secp256k1.S256())
+// returns), among them the first scalars whose X or Y coordinate has one or two leading zero bytes.
+func coercedScalars() []c16CoercedCase {
+	res := []c16CoercedCase{{1, "k=1"}, {2, "k=2"}, {3, "k=3"}, {7, "k=7"}}
+	curve := secp256k1.S256()
+	need := map[string]bool{"x-leading-zero-byte": true, "y-leading-zero-byte": true}
+	for k := 4; k < 20000 && len(need) > 0; k++ {
+		x, y := curve.ScalarBaseMult(big.NewInt(int64(k)).Bytes())
+		if need["x-leading-zero-byte"] && len(x.Bytes()) < 32 {
+			res = append(res, c16CoercedCase{k, "x-leading-zero-byte"})
+			delete(need, "x-leading-zero-byte")
+		}
+		if need["y-leading-zero-byte"] && len(y.Bytes()) < 32 {
+			res = append(res, c16CoercedCase{k, "y-leading-zero-byte"})
+			delete(need, "y-leading-zero-byte")
+		}
+	}
+	return res
+}
+
+func c16CoercedSub() *engine.Sub {
+	return &engine.Sub{
+		Name: "ecdsa-typed-secp256k1-keys",
+		Rule: "public keys k*G on secp256k1 held as libp2p ECDSA keys (the type crypto.GenerateECDSAKeyPairWithCurve(secp256k1.S256()) produces) for small scalars and for the first scalars whose X, respectively Y, coordinate starts with a zero byte: FromPubKey succeeds, the DID is the canonical secp256k1 did:key of the point, it parses back and yields an equal point; non-trivial = all",
+		Bound: func(string) string { return "6 deterministic points incl. one with a short X and one with a short Y coordinate" },
+		Gen: func(tier string, emit func(any) bool) {
+			for _, c := range coercedScalars() {
+				c := c
+				if !emit(&c) {
+					return
+				}
+			}
+		},
+		NewCase: func() any { return &c16CoercedCase{} },
+		Run: func(ctx *engine.Ctx, c any) {
+			cs := c.(*c16CoercedCase)
+			curve := secp256k1.S256()
+			x, y := curve.ScalarBaseMult(big.NewInt(int64(cs.Scalar)).Bytes())
+			pub, err := crypto.ECDSAPublicKeyFromPubKey(ecdsa.PublicKey{Curve: curve, X: x, Y: y})
+			if err != nil {
+				panic(err)
+			}
+			ctx.States(1)
+			ctx.Eval(1)
+			ctx.Trans(1)
+			ctx.Nontrivial(1)
+			d, err := did.FromPubKey(pub)
+			if err != nil {
+				ctx.Outcome("frompubkey-error")
+				ctx.Failf(cs, "frompubkey-fails/ecdsa-typed-secp256k1/"+cs.Why, "did.FromPubKey fails for the ECDSA-typed secp256k1 key %d*G (%s): %v", cs.Scalar, cs.Why, err)
+				return
+			}
+			want := didKeyString(uvarint(0xe7), elliptic.MarshalCompressed(curve, x, y))
+			if d.String() != want {
+				ctx.Failf(cs, "string-not-canonical/ecdsa-typed-secp256k1", "DID of %d*G prints as %s, want %s", cs.Scalar, d.String(), want)
+				return
+			}
+			p, err := did.Parse(d.String())
+			if err != nil || p != d {
+				ctx.Failf(cs, "printed-did-not-parsed/ecdsa-typed-secp256k1", "Parse(String) fails or differs: %v", err)
+				return
+			}
+			pk, err, pan := safePubKey(p)
+			if err != nil || pan != nil {
+				ctx.Failf(cs, "pubkey-extraction-fails/ecdsa-typed-secp256k1", "PubKey() fails: %v %v", err, pan)
+				return
+			}
+			raw, _ := pk.Raw()
+			if !bytes.Equal(raw, elliptic.MarshalCompressed(curve, x, y)) {
+				ctx.Failf(cs, "extracted-key-differs/ecdsa-typed-secp256k1", "PubKey() of the DID of %d*G is another point", cs.Scalar)
+				return
+			}
+			ctx.Outcome("roundtrip-ok")
+		},
+	}
+}
+
 func C16() *engine.Check {
 	return &engine.Check{
 		Property: "C16",
 		Level:    "model_checking",
-		Subs:     []*engine.Sub{c16RoundtripSub(), c16AltSub(), c16StringsSub()},
+		Subs:     []*engine.Sub{c16RoundtripSub(), c16CoercedSub(), c16AltSub(), c16StringsSub()},
 		Assumptions: []string{
 			"keys: committed fixtures plus one key per Generate* call per run; the conversion code has no key-dependent branches except leading-zero coordinates, which the 8 EC fixtures do not force",
 			"the canonical key material is computed independently: compressed SEC1 point for EC keys, raw 32 bytes for Ed25519, PKCS#1 DER for RSA",
